@@ -4,7 +4,7 @@
 (*                                                                         *)
 (* Abstract state                                                          *)
 (*   reg  : the node registry, a sequence of service records               *)
-(*          [st, pid, name, dir, ports, ver]  (st in Added/Running/        *)
+(*          [st, pid, name, dir, ports, ver, um]  (st in Added/Running/    *)
 (*          Stopped/Removed; pid = 0 when none recorded; name/dir = the N  *)
 (*          of "antnodeN"; ports = recorded ports a user could request;    *)
 (*          ver = 1 installed version, 2 upgraded)                         *)
@@ -35,14 +35,33 @@ CONSTANTS StrictPid,    \* TRUE: a failing process lookup is an error (not "proc
 Statuses == {"Added", "Running", "Stopped", "Removed"}
 
 -----------------------------------------------------------------------------
-(* Property clauses.  P, Q are projections [reg, procs] before / after an   *)
-(* operation, e the operation event [op, svc, res, req, reload_eq].         *)
+(* Property clauses.  P, Q are projections [reg, procs, inst] before /      *)
+(* after an operation, e the operation event [op, svc, res, req, reload_eq, *)
+(* refreshed].  inst = installed service definitions [n, um] (um = the      *)
+(* user_mode argument they were installed with); reg[i].um = the recorded   *)
+(* mode of the service.                                                     *)
+(*                                                                         *)
+(* Environment events (e.op in EnvOps: the process of a service dies, or is *)
+(* (re)spawned by the OS with a new pid) are not manager operations: no     *)
+(* clause is judged on them, they only change the "before" state of the     *)
+(* next operation.  e.refreshed: the operation read the process table for   *)
+(* EVERY service before acting (every antctl command except `add` starts    *)
+(* with refresh_node_registry; FALSE when that refresh was cut short by a   *)
+(* failing call).                                                           *)
+EnvOps == {"Kill", "Respawn"}
 
 LiveAs(Q, i) == \E p \in Q.procs : p.n = Q.reg[i].dir /\ p.pid = Q.reg[i].pid
 HasProc(Q, i) == \E p \in Q.procs : p.n = Q.reg[i].dir
 
-\* a service recorded as running has a live process with the recorded PID
-C19_RunningIsLive(Q) == \A i \in DOMAIN Q.reg : Q.reg[i].st = "Running" => LiveAs(Q, i)
+\* a service recorded as running has a live process with the recorded PID -- after every operation.  The only
+\* excuse: the record was ALREADY stale before the operation (the environment killed / respawned the process, or an
+\* earlier operation was already reported for it) and the operation never looked at the process table (`add`, or a
+\* refresh cut short).  Without environment events this is the unconditional clause: every stale record is reported
+\* on the operation that produced it.
+StaleBefore(P, Q, i) == /\ i \in DOMAIN P.reg /\ P.reg[i].st = "Running" /\ P.reg[i].pid = Q.reg[i].pid
+                        /\ ~(\E p \in P.procs : p.n = P.reg[i].dir /\ p.pid = P.reg[i].pid)
+C19_RunningIsLive(P, e, Q) ==
+    \A i \in DOMAIN Q.reg : Q.reg[i].st = "Running" => (LiveAs(Q, i) \/ (~e.refreshed /\ StaleBefore(P, Q, i)))
 
 \* a successful stop or removal leaves no process and no recorded PID
 C19_StopLeavesNothing(e, Q) ==
@@ -72,18 +91,34 @@ C19_PortRefused(P, e, Q) ==
     (e.op = "Add" /\ \E i \in DOMAIN P.reg : P.reg[i].st # "Removed" /\ e.req \cap P.reg[i].ports # {})
         => (e.res # "Ok" /\ Len(Q.reg) = Len(P.reg))
 
+\* [C19-2] no two services that are not removed record the same port ("a requested port that another service already
+\* records is refused" -- also when the other service is an earlier one of the SAME `add --count n`, and whatever the
+\* kind of port (node / metrics / rpc) on either side)
+C19_NoSharedPort(Q) ==
+    \A i, j \in DOMAIN Q.reg : (i < j /\ Q.reg[i].st # "Removed" /\ Q.reg[j].st # "Removed")
+                                    => Q.reg[i].ports \cap Q.reg[j].ports = {}
+
+\* [C20-4] the recorded status is consistent with the installed definitions: a successfully removed service has no
+\* definition left, a successfully added one has a definition installed in the service's recorded mode
+C19_InstalledAsRecorded(P, e, Q) ==
+    /\ (e.op = "Remove" /\ e.res = "Ok" /\ e.svc \in DOMAIN Q.reg) => ~\E x \in Q.inst : x.n = Q.reg[e.svc].name
+    /\ (e.op = "Add" /\ e.res = "Ok") => \A i \in NewOnes(P, Q) : [n |-> Q.reg[i].name, um |-> Q.reg[i].um] \in Q.inst
+
 \* the registry saved after the step loads back to the same state
 C19_SaveLoad(e) == e.reload_eq
 
 When(cond, name) == IF cond THEN {name} ELSE {}
 C19_Falsified(P, e, Q) ==
-         When(~C19_RunningIsLive(Q),          "C19_RunningIsLive")
+    IF e.op \in EnvOps THEN {} ELSE
+         When(~C19_RunningIsLive(P, e, Q),    "C19_RunningIsLive")
     \cup When(~C19_StopLeavesNothing(e, Q),   "C19_StopLeavesNothing")
     \cup When(~C19_RemovedStays(P, Q),        "C19_RemovedStays")
     \cup When(~C19_NoFalseRunning(P, e, Q),   "C19_NoFalseRunning")
     \cup When(~C19_UniqueNames(P, e, Q),      "C19_UniqueNames")
     \cup When(~C19_UniqueDirs(P, e, Q),       "C19_UniqueDirs")
     \cup When(~C19_PortRefused(P, e, Q),      "C19_PortRefused")
+    \cup When(~C19_NoSharedPort(Q),           "C19_NoSharedPort")
+    \cup When(~C19_InstalledAsRecorded(P, e, Q), "C19_InstalledAsRecorded")
     \cup When(~C19_SaveLoad(e),               "C19_SaveLoad")
 
 -----------------------------------------------------------------------------
@@ -184,12 +219,15 @@ UpgradeSvc(c, i, sf) ==
         c6 == IF sf THEN StartSvc(c5, i) ELSE c5          \* a failing start: UpgradedButNotStarted (Ok)
     IN Done([c6 EXCEPT !.reg[i].ver = 2], "Ok")
 
-\* ---- add_node(count = cnt, requested port range starting at port (0 = none), for `kind`)
+\* ---- add_node(count = cnt, requested port range starting at port (0 = none) for `kind`, and -- [C19-2] -- a second
+\*      requested range starting at port2 (0 = none) for another kind kind2).  Each range is checked against the ports the
+\*      registry records (check_port_availability); the ranges are not checked against each other.
 ReqSet(cnt, port) == IF port = 0 THEN {} ELSE port .. (port + cnt - 1)
-AddSvc(c, cnt, port, kind) ==
+AddSvc(c, cnt, port, kind, port2, kind2) ==
     LET recorded == UNION {c.reg[j].ports : j \in DOMAIN c.reg}       \* check_port_availability
         base == IF NumberByMax THEN MaxOf({c.reg[j].name : j \in DOMAIN c.reg}) ELSE Len(c.reg)
-        needPort == ~(port # 0 /\ kind = "rpc")         \* rpc port not requested: get_available_port()
+        \* rpc port not requested: get_available_port()
+        needPort == ~((port # 0 /\ kind = "rpc") \/ (port2 # 0 /\ kind2 = "rpc"))
         One(a, b) ==
             IF a.res # "run" THEN a ELSE
             LET num == base + b
@@ -200,18 +238,29 @@ AddSvc(c, cnt, port, kind) ==
                IN IF Fl(a2) THEN [a3 EXCEPT !.failed = TRUE]           \* recorded as failed, batch goes on
                   ELSE [a3 EXCEPT !.os.inst = @ \cup {num},
                                   !.reg = Append(@, [st |-> "Added", pid |-> 0, name |-> num, dir |-> num,
-                                                     ports |-> IF port = 0 THEN {} ELSE {port + b - 1},
-                                                     ver |-> 1])]
-    IN IF ReqSet(cnt, port) \cap recorded # {} THEN Done(c, "Err") ELSE
+                                                     ports |-> (IF port = 0 THEN {} ELSE {port + b - 1})
+                                                               \cup (IF port2 = 0 THEN {} ELSE {port2 + b - 1}),
+                                                     ver |-> 1, um |-> FALSE])]
+    IN IF (ReqSet(cnt, port) \cup ReqSet(cnt, port2)) \cap recorded # {} THEN Done(c, "Err") ELSE
        LET r == FoldLeft(One, [reg |-> c.reg, os |-> c.os, k |-> c.k, F |-> c.F, res |-> c.res, failed |-> FALSE],
                          [j \in 1..cnt |-> j])
            out == [reg |-> r.reg, os |-> r.os, k |-> r.k, F |-> r.F, res |-> r.res]
        IN IF r.res # "run" THEN out
           ELSE Done(out, IF r.failed THEN "Err" ELSE "Ok")
 
+\* ---- [C19-1] environment: the process of service i dies / the OS (re)spawns it with a new pid.  No manager call.
+KillProc(c, i) == Done([c EXCEPT !.os.procs = {p \in @ : p.n # c.reg[i].dir}], "Ok")
+CanRespawn(reg, os, i) == reg[i].name \in os.inst /\ reg[i].dir \in os.dirs
+RespawnProc(c, i) ==
+    IF ~CanRespawn(c.reg, c.os, i) THEN Done(c, "Ok")
+    ELSE Done([c EXCEPT !.os.procs = {p \in @ : p.n # c.reg[i].dir} \cup {[n |-> c.reg[i].dir, pid |-> c.os.nextPid]},
+                        !.os.nextPid = @ + 1], "Ok")
+
 \* ---- one antctl operation
 Exec(o, c) ==
-    IF o.op = "Add" THEN AddSvc(c, o.cnt, o.port, o.kind) ELSE
+    IF o.op = "Add" THEN AddSvc(c, o.cnt, o.port, o.kind, o.port2, o.kind2) ELSE
+    IF o.op = "Kill" THEN KillProc(c, o.svc) ELSE
+    IF o.op = "Respawn" THEN RespawnProc(c, o.svc) ELSE
     LET r == Refresh(c) IN
     IF r.res # "run" THEN r ELSE
     CASE o.op = "Start"   -> StartSvc(r, o.svc)
@@ -219,5 +268,8 @@ Exec(o, c) ==
       [] o.op = "Remove"  -> RemoveSvc(r, o.svc)
       [] o.op = "Upgrade" -> UpgradeSvc(r, o.svc, o.start)
 
-Proj(reg, os) == [reg |-> reg, procs |-> os.procs]
+\* did the operation read the process table for every service before acting
+Refreshed(o, c) == o.op \notin ({"Add"} \cup EnvOps) /\ Refresh(c).res = "run"
+
+Proj(reg, os) == [reg |-> reg, procs |-> os.procs, inst |-> {[n |-> x, um |-> FALSE] : x \in os.inst}]
 =============================================================================
